@@ -1,27 +1,58 @@
 #!/usr/bin/env python3
-"""Replays every stored seeded change against the committed checks (scratch copies of /repo, quick tier) and
-verifies that the rules recorded in its meta.json `caught_by` still report it. usage: replay_seeded.py [-j N] [name-substring]"""
-import json, os, re, subprocess, sys, glob, concurrent.futures
-jobs = 4
-args = sys.argv[1:]
-if args and args[0] == "-j":
-    jobs = int(args[1]); args = args[2:]
-sel = args[0] if args else ""
+"""Replays stored seeded changes against the checks (scratch copies of the repository, quick tier) and verifies that
+the rules recorded in each meta.json `caught_by` still report the change.
+usage: replay_seeded.py [-j N] [--prop Cxx] [--repo DIR] [--json FILE] [name-substring]
+ --prop Cxx : only the seeds for which a rule of Cxx is recorded, and only Cxx's rules are required / run."""
+import argparse, json, os, re, shutil, subprocess, sys, glob, tempfile, concurrent.futures
+ap = argparse.ArgumentParser()
+ap.add_argument("-j", type=int, default=4)
+ap.add_argument("--prop")
+ap.add_argument("--repo", default="/repo")
+ap.add_argument("--json")
+ap.add_argument("--quiet", action="store_true")
+ap.add_argument("sel", nargs="?", default="")
+a = ap.parse_args()
+VERIF = os.path.dirname(os.path.dirname(os.path.abspath(__file__)))
+ENV = dict(os.environ, GOFLAGS="-mod=mod", GOPROXY="off", GOSUMDB="off", GOTOOLCHAIN="local")
+ENV.pop("GOWORK", None)
+
 def one(d):
+    name = os.path.basename(d.rstrip("/"))
     m = json.load(open(os.path.join(d, "meta.json")))
     rules = sorted(set(re.findall(r"C\d\d\.\w+", " ".join(m.get("caught_by", [])))))
+    if a.prop:
+        rules = [r for r in rules if r.startswith(a.prop + ".")]
+    if not rules:
+        return None
     props = sorted(set(r.split(".")[0] for r in rules))
-    cp = subprocess.run(["/verif/tools/try_seeded.sh", os.path.join(d, "patch.diff")] + props, capture_output=True, text=True)
-    fired = sorted(set(re.findall(r"rule=(C\d\d\.\w+)", cp.stdout)))
-    missing = [r for r in rules if r not in fired]
-    return os.path.basename(d.rstrip("/")), rules, fired, missing
-dirs = [d for d in sorted(glob.glob("/verif/seeded/*/")) if sel in d]
-bad = 0
-with concurrent.futures.ThreadPoolExecutor(max_workers=jobs) as ex:
-    for name, rules, fired, missing in ex.map(one, dirs):
-        st = "ok" if not missing and rules else "FAIL"
-        if st == "FAIL":
-            bad += 1
-        print("%-5s %-50s expected %s fired %s" % (st, name, rules, fired))
-print("%d seeded changes replayed, %d not reported as recorded" % (len(dirs), bad))
+    t = tempfile.mkdtemp(prefix="c4e-replay-", dir=os.environ.get("VERIF_SCRATCH", "/tmp"))
+    try:
+        subprocess.run(["rsync", "-a", "--exclude", ".git", "--exclude", "ts-client", "--exclude", "vue", a.repo + "/", t + "/src/"], check=True)
+        cp = subprocess.run(["patch", "-p1", "-s", "-i", os.path.join(d, "patch.diff")], cwd=t + "/src", capture_output=True, text=True)
+        if cp.returncode != 0:
+            return dict(id=name, status="skipped", why="patch does not apply to this tree", rules=rules, fired=[])
+        fired = set()
+        for p in props:
+            out = subprocess.run([os.path.join(VERIF, "bin", "c4echeck"), "-prop", p, "-tier", "quick", "-repo", t + "/src", "-verif", VERIF, "-out", t + "/out"],
+                                 capture_output=True, text=True, env=ENV)
+            fired |= set(re.findall(r"rule=(C\d\d\.\w+)", out.stdout))
+        missing = [r for r in rules if r not in fired]
+        return dict(id=name, status="ok" if not missing else "FAIL", why=("not reported: %s" % missing) if missing else "", rules=rules, fired=sorted(fired))
+    finally:
+        shutil.rmtree(t, ignore_errors=True)
+
+dirs = [d for d in sorted(glob.glob(os.path.join(VERIF, "seeded", "*/"))) if a.sel in d and os.path.exists(os.path.join(d, "meta.json"))]
+res = []
+with concurrent.futures.ThreadPoolExecutor(max_workers=a.j) as ex:
+    for r in ex.map(one, dirs):
+        if r is None:
+            continue
+        res.append(r)
+        if not a.quiet or r["status"] == "FAIL":
+            print("%-7s %-52s expected %s fired %s %s" % (r["status"], r["id"], r["rules"], r["fired"], r["why"]))
+bad = [r for r in res if r["status"] == "FAIL"]
+if not a.quiet:
+    print("%d seeded changes replayed, %d not reported as recorded, %d skipped" % (len(res), len(bad), sum(r["status"] == "skipped" for r in res)))
+if a.json:
+    json.dump(res, open(a.json, "w"), indent=1)
 sys.exit(1 if bad else 0)
